@@ -456,3 +456,56 @@ Definition long_model_ok (c : long_case) : bool :=
 
 Definition c05_long_violations (cs : list long_case) : list nat := indices_where (fun c => negb (long_ok c)) cs.
 Definition c05_long_mismatches (cs : list long_case) : list nat := indices_where (fun c => negb (long_model_ok c)) cs.
+
+(* ---------- RetryClient: the re-subscription after a reconnection ---------- *)
+(* request history with the codes the first broker granted; packets after the CONNECT on each later
+   connection (Resubscribe and Retry were called on each) *)
+Definition resub_case := (list (sop * list N) * list (list (list N)))%type.
+
+Fixpoint decode_subscribes (ws : list (list N)) : option (list (str * N)) :=
+  match ws with
+  | [] => Some []
+  | w :: r =>
+      match decode_whole w, decode_subscribes r with
+      | Some (PSubscribe id ss), Some l => if id =? 0 then None else Some (ss ++ l)
+      | _, _ => None
+      end
+  end.
+
+Definition op_topics (o : sop) : list str :=
+  match o with SSub subs => map fst subs | SUnsub ts => ts end.
+
+Definition count_topic (t : str) (l : list (str * N)) : nat :=
+  length (filter (fun e => str_eqb (fst e) t) l).
+
+(* property: every packet is a well-formed SUBSCRIBE; each requested (filter, QoS) is what the application
+   asked last for that filter; every filter still asked for is re-subscribed exactly once *)
+Definition resub_conn_ok (ops : list sop) (ws : list (list N)) : bool :=
+  match decode_subscribes ws with
+  | None => false
+  | Some l =>
+      forallb (fun e => option_eqb N.eqb (asked (fst e) ops None) (Some (snd e))) l
+      && forallb (fun t => match asked t ops None with
+                           | Some _ => Nat.eqb (count_topic t l) 1
+                           | None => Nat.eqb (count_topic t l) 0
+                           end) (flat_map op_topics ops)
+  end.
+
+Definition resub_ok (c : resub_case) : bool :=
+  let '(h, conns) := c in
+  negb (Nat.eqb (length conns) 0) && forallb (resub_conn_ok (map fst h)) conns.
+
+(* model: byte for byte the encoding of one SUBSCRIBE per remembered request, in order *)
+Fixpoint resub_bytes_ok (reqs : list (list (str * N))) (ws : list (list N)) : bool :=
+  match reqs, ws with
+  | [], [] => true
+  | r :: reqs', w :: ws' => obytes_eqb (pack_subscribe (packet_id_of w) r) (Some w) && resub_bytes_ok reqs' ws'
+  | _, _ => false
+  end.
+
+Definition resub_model_ok (c : resub_case) : bool :=
+  let '(h, conns) := c in
+  forallb (resub_bytes_ok (resub_requests (rc_run [] h))) conns.
+
+Definition c05_resub_violations (cs : list resub_case) : list nat := indices_where (fun c => negb (resub_ok c)) cs.
+Definition c05_resub_mismatches (cs : list resub_case) : list nat := indices_where (fun c => negb (resub_model_ok c)) cs.
